@@ -28,6 +28,8 @@ func main() {
 		cmdC04Corr(*seed, *n, *dir)
 	case "c04-sweep":
 		cmdC04Sweep(*seed, *thorough, *dir)
+	case "c12-corr":
+		cmdC12Corr(*seed, *n, *dir)
 	case "c05":
 		cmdC05(*seed, *thorough, *dir)
 	default:
